@@ -676,15 +676,22 @@ fn sub_ipc(c: &mut Case) -> CaseResult {
         c.class("compressed");
     }
     let what = json!({"schema": format!("{:?}", g.schema.fields().iter().map(|f| f.data_type().to_string()).collect::<Vec<_>>()), "batches": g.batches.iter().map(|b| b.num_rows()).collect::<Vec<_>>(), "eos": eos, "mutation": kind});
-    // (fixed finding F8: a dense union column panicked when the pushed buffer was not 4-byte aligned; no longer excluded)
+    // known finding F8: a dense union column panics when the pushed buffer is not 4-byte aligned
     let dense_union = g.fields.iter().any(|f| f.ty.any(&|t| matches!(t, LType::Union { dense: true, .. })));
-    let am = AlignMode::Any;
+    let am = if dense_union && !c.strict {
+        c.exclude(F8_KEY);
+        AlignMode::Safe
+    } else {
+        AlignMode::Any
+    };
     if dense_union {
         c.class("dense-union");
     }
     ipc_case(c, "ipc", data, kind == "valid", what, am)
 }
 
+
+const F8_KEY: &str = "F8-ipc-dense-union-unaligned-buffer-panics";
 
 /// dedicated reproduction of F8: a valid V5 stream with a dense union column, pushed in buffers whose base address
 /// is odd (require_alignment = false is documented to copy unaligned data instead of failing)
@@ -704,7 +711,12 @@ fn sub_ipc_f8(c: &mut Case) -> CaseResult {
         w.write(&batch).map_err(|e| Fail::new("ipc:writer", e.to_string()))?;
         w.finish().map_err(|e| Fail::new("ipc:writer", e.to_string()))?;
     }
-    let am = AlignMode::Misaligned;
+    let am = if c.strict {
+        AlignMode::Misaligned
+    } else {
+        c.exclude(F8_KEY);
+        AlignMode::Safe
+    };
     c.class("dense-union");
     ipc_case(c, "ipc_f8", buf, true, json!({"schema": "Union(Dense, a: Int32, b: Utf8)", "rows": rows}), am)
 }
